@@ -186,6 +186,12 @@ def r02_2(cx):
                     and any(t[0] == 'f' and t[2] == 'fail' and 'id' in tstr(t) for _, _, t in defs) and any(t[0] == 'f' and t[2] == 'fail' and tstr(v) in tstr(t) for _, _, t in defs)
                 cx.report('R02.2', b, 'walk', okw, 'f starts at states[id].fail, follows failure links while follow_transition(f, t.byte) == FAIL, then takes that transition' if okw else 'failure walk definitions: %s' % kinds, line_of(b, bi, si))
     cx.floor('R02.2', 'computed failure-link stores', n, 1)
+    # breadth-first order: states are taken from the front and appended at the back of one queue (a state's failure
+    # target is shallower and must be complete before the state copies its matches)
+    pops = [short(t0['callee']['path']).rsplit('::', 1)[1] for bi, t0 in b.calls(r'VecDeque.*::pop_(front|back)$')]
+    pushes = [short(t0['callee']['path']).rsplit('::', 1)[1] for bi, t0 in b.calls(r'VecDeque.*::push_(front|back)$')]
+    okq = pops == ['pop_front'] and len(pushes) >= 2 and set(pushes) == {'push_back'}
+    cx.report('R02.2', b, 'fifo', okq, 'the work queue is FIFO (push_back / pop_front): failure links are computed breadth-first' if okq else 'the work queue is not FIFO (pops %s, pushes %s): failure targets may be used before they are complete' % (pops, pushes))
     # standard semantics: every popped state also inherits the start state's matches (empty pattern)
     cms = [(cb, b.call_term(cb, t)) for cb, t in b.calls(r'NFA::copy_matches$')]
     st = [cb for cb, ct in cms if tstr(ct[2][1]) in ('self.nfa.special.start_unanchored_id', 'start_uid') and is_var(ct[2][2], 'id')]
